@@ -261,7 +261,7 @@ def check_fit_emit(ctx, replay, out):
         return
     rel = g.get("rel") or {}
     cls = rel.get("cls")
-    ctx.count("fit emit guards: labelsOKB=%s unplacedWfRun=%s" % (rel.get("labels"), rel.get("uWfRun")))
+    ctx.count("fit emit guards: labelsOKB=%s unplacedWfRun=%s textStableC=%s" % (rel.get("labels"), rel.get("uWfRun"), rel.get("textStable")))
     for kk in ("uStart", "uEnd"):
         if rel.get(kk) is not None:
             ctx.count("fit emit: unplaced %s half well-formed over the loop: %s" % ("start" if kk == "uStart" else "end", rel[kk]))
